@@ -65,6 +65,9 @@ func (c13) Gen(tier string, seed int64) []fw.Unit {
 			}
 		}
 	}
+	for _, q := range azBoundaryReqs(r, tier == "thorough", true) {
+		us = append(us, q.Unit("min", "aztec/capacity-boundary"))
+	}
 	nt := 60
 	if tier == "thorough" {
 		nt = 400
